@@ -30,6 +30,10 @@ import Thanos.Model.Rewrite
       perm   = i{,i} | -               what natsort.Sort does to the lexically sorted list (input):
                                        final[k] = lexsorted[perm[k]]
       keys   = hexkey:hash{,hexkey:hash} | -       hash = xxhash64 of the key, decimal (input)
+    mc.hist <steps> <keys>                              -> <answer>{|<answer>}
+      steps  = step{|step}      step = S<listed>~<perm>   SetServers with names that all resolve      -> ok
+                                     | F<listed>          SetServers with a name that does not resolve -> err
+                                     | P                  PickServer for every key + PickServerForKeys -> <single>/<batch>
       single = per key the picked hexsrv, or err, joined by ","  (- for no keys)
       batch  = err | hexsrv=hexkey+hexkey{;…} sorted by server (a server without keys: hexsrv=-) | - (empty map)
 
@@ -434,7 +438,33 @@ def run (series reqs : String) : String :=
 
 end RW
 
+/-- a history of SetServers calls and lookups on one selector -/
+def mcHist (keys : List (String × UInt64)) : List String → List String → Option (List String)
+  | _, [] => some []
+  | cur, st :: rest =>
+    match st.toList with
+    | ['P'] => (mcHist keys cur rest).map ((showSingle cur keys ++ "/" ++ showBatch cur keys) :: ·)
+    | 'F' :: l => do
+      let _ ← parseServers (String.ofList l)
+      (mcHist keys (Memcached.setCall cur .fail) rest).map ("err" :: ·)
+    | 'S' :: l =>
+      match splitChar '~' (String.ofList l) with
+      | [listed, perm] => do
+        let ls ← parseServers listed
+        let p ← parseNats? ',' perm
+        let sorted ← sortedOf ls p
+        (mcHist keys (Memcached.setCall cur (.ok sorted)) rest).map ("ok" :: ·)
+      | _ => none
+    | _ => none
+
 def handle : List String → String
+  | ["mc.hist", steps, keys] =>
+    match parseKeys keys with
+    | some ks =>
+      match mcHist ks [] (splitChar '|' steps) with
+      | some out => "|".intercalate out
+      | none => "bad-op"
+    | none => "bad-op"
   | ["rw.block", series, reqs] => RW.run series reqs
   | ["rw.mod", series, reqs] => RW.run series reqs
   | ["rl.expand", tol, env, text] =>
